@@ -163,15 +163,25 @@ pub fn colliding_frames(seed: u64) -> Vec<(u16, u8, Vec<u8>)> {
 }
 
 /// Encodes/decodes a SEQUENCE of frames on one fresh thread; every step must behave as if it were the first.
+/// Strings whose decode fails in each of the three ways; decoded (result ignored) before a frame is checked.
+pub const POISON: [&[u8]; 4] = [b":01000302FF00\r\n", b":02000302FFFA", b":0100030gFF00", b":00007F02007F"];
+
 pub fn check_frame_sequence(frames: Vec<(u16, u8, Vec<u8>)>) -> Vec<(&'static str, String, String)> {
+    check_frame_sequence_after(None, frames)
+}
+
+pub fn check_frame_sequence_after(poison: Option<usize>, frames: Vec<(u16, u8, Vec<u8>)>) -> Vec<(&'static str, String, String)> {
     crate::util::in_fresh_thread(move || {
+        if let Some(pi) = poison {
+            let _ = catch(|| Frame::from_bytes(POISON[pi]).is_ok());
+        }
         for (k, (a, t, d)) in frames.iter().enumerate() {
             let vs = check_frame(*a, *t, d);
             if let Some((clause, class, detail)) = vs.into_iter().next() {
-                if k == 0 {
+                if k == 0 && poison.is_none() {
                     return vec![(clause, class, detail)];
                 }
-                return vec![("history-independent", format!("step-{}:{}", k.min(2), clause), format!("step {} of a sequence on one thread (after {} earlier frame(s) with the same length/address/type/byte sum): {}", k, k, detail))];
+                return vec![("history-independent", format!("step-{}{}:{}", k.min(2), if poison.is_some() { "-after-failed-decode" } else { "" }, clause), format!("step {} of a sequence on one thread (after {} earlier frame(s){}): {}", k, k, if poison.is_some() { " and a decode that failed" } else { "" }, detail))];
             }
         }
         vec![]
@@ -346,6 +356,21 @@ pub fn run(ctx: &Ctx) -> Report {
     for a in accs {
         seq.merge(ID, a);
     }
+    // a decode that FAILS (bad checksum / length mismatch / malformed), then one or two frames
+    for pi in 0..POISON.len() {
+        for i in 0..cf.len() {
+            for j in 0..=cf.len() {
+                let mut frames = vec![cf[i].clone()];
+                if j < cf.len() {
+                    frames.push(cf[j].clone());
+                }
+                seq.evals += frames.len() as u64;
+                for (clause, class, detail) in check_frame_sequence_after(Some(pi), frames.clone()) {
+                    seq.violation(ID, Violation::new(clause, class, detail, json!({"kind": "sequence", "poison": pi, "frames": frames.iter().map(|f| json!({"addr": f.0, "type": f.1, "data": hex(&f.2)})).collect::<Vec<_>>()}), (5u64 << 40) + (pi * 1000 + i * 20 + j) as u64));
+                }
+            }
+        }
+    }
     let seq_evals = seq.evals;
     for (_, v) in std::mem::take(&mut seq.viol) {
         rep.violation(v);
@@ -376,7 +401,7 @@ pub fn replay(_ctx: &Ctx, case: &Value) -> Result<Vec<Violation>, String> {
         }
         Some("sequence") => {
             let frames: Vec<(u16, u8, Vec<u8>)> = case["frames"].as_array().ok_or("frames")?.iter().map(|f| (f["addr"].as_u64().unwrap() as u16, f["type"].as_u64().unwrap() as u8, unhex(f["data"].as_str().unwrap()))).collect();
-            Ok(check_frame_sequence(frames).into_iter().map(|(c, k, d)| Violation::new(c, k, d, case.clone(), 0)).collect())
+            Ok(check_frame_sequence_after(case["poison"].as_u64().map(|x| x as usize), frames).into_iter().map(|(c, k, d)| Violation::new(c, k, d, case.clone(), 0)).collect())
         }
         Some("oversized") => Ok(check_oversized_wire(case["n"].as_u64().ok_or("n")? as usize, case["extra"].as_u64().ok_or("extra")? as usize, case["newline"].as_bool().unwrap_or(false)).into_iter().map(|(c, k, d)| Violation::new(c, k, d, case.clone(), 0)).collect()),
         Some("try_new") => {
